@@ -216,6 +216,7 @@ class Types:
                     if isinstance(tgt, tuple) and tgt[0] == "closure":
                         # what the closure captured, as it was when the closure was made (seen from the function that made it)
                         env, _, fi = cat.eng._closure_env[tgt[2]]
+                        fi = cat._target(tgt)[1] or fi        # (the instance of the callback made for the registry captured, if any)
                         for k, v in env.items():
                             c = self.class_of(v, cat.eng, timer_func=ent.func.qual)
                             if c:
